@@ -99,6 +99,7 @@ type op struct {
 	enabled    func() bool
 	cases      []selCase
 	hasDefault bool
+	first      bool // once enabled, offered ahead of the running thread (AwaitFirst)
 }
 
 type thread struct {
@@ -154,6 +155,7 @@ type Result struct {
 	HorizonHit bool
 	Now        time.Duration
 	Trace      []string
+	TraceSteps []int // step number of each Trace entry
 	SchedHash  uint64 // FNV-1a over (thread id, case) of every granted transition and every env choice
 	Cost       int    // total deviation cost of the choices taken
 	NonDefault int    // number of choice points at which a non-default alternative was taken
@@ -384,6 +386,15 @@ func (sc *sched) step() (granted, finished bool) {
 		sc.finish()
 		return false, true
 	}
+	for i := 1; i < len(trs); i++ {
+		// an AwaitFirst waiter whose condition holds is the default choice
+		if trs[i].t.op != nil && trs[i].t.op.first && !trs[i].t.ready {
+			tr := trs[i]
+			copy(trs[1:i+1], trs[:i])
+			trs[0] = tr
+			break
+		}
+	}
 	if sc.earlyTimers && sc.earliestTimer() != nil {
 		trs = append(trs, transition{timer: true})
 	}
@@ -439,6 +450,7 @@ func (sc *sched) grant(tr transition) {
 			l = t.op.label
 		}
 		sc.res.Trace = append(sc.res.Trace, fmt.Sprintf("%d:%s %s case=%d @%v", t.id, t.name, l, tr.caseIdx, sc.now))
+		sc.res.TraceSteps = append(sc.res.TraceSteps, sc.res.Steps)
 	}
 	if tr.caseIdx == -2 {
 		t.ready = false
@@ -582,6 +594,29 @@ func Await(label string, pred func() bool) {
 		}
 	}
 	s.block(&op{kind: opCond, label: label, enabled: pred})
+}
+
+// AwaitFirst is Await for an external event whose position is a parameter of the harness:
+// once pred holds the caller is offered first at the next choice point, ahead of the
+// running thread, so that in the default schedule it resumes exactly there and every other
+// continuation costs one deviation. With pred = "Steps() >= k" this is an interrupt at
+// step k: the start of the event is enumerated by the harness (one unit per k) instead of
+// being a preemption that uses up the deviation budget.
+func AwaitFirst(label string, pred func() bool) {
+	if s == nil {
+		Await(label, pred)
+		return
+	}
+	s.block(&op{kind: opCond, label: label, enabled: pred, first: true})
+}
+
+// Steps returns the number of scheduling steps of the current controlled execution
+// (0 in pass-through mode).
+func Steps() int {
+	if s == nil {
+		return 0
+	}
+	return s.res.Steps
 }
 
 // Choose is an environment choice among n alternatives; cost is the deviation
